@@ -618,9 +618,58 @@ type registration struct {
 // signature (token.Type, <named func type>).
 func registrations(p *Program) []registration {
 	var out []registration
+	boundMethod := func(v ssa.Value) *ssa.Function {
+		for {
+			if ct, ok := v.(*ssa.ChangeType); ok {
+				v = ct.X
+				continue
+			}
+			break
+		}
+		if mc, ok := v.(*ssa.MakeClosure); ok {
+			if bf, ok := mc.Fn.(*ssa.Function); ok {
+				name := strings.TrimSuffix(bf.Name(), "$bound")
+				for _, f := range parserFns(p) {
+					if f.Parent() == nil && f.Name() == name && recvNamed(f, "parser", "Parser") {
+						return f
+					}
+				}
+			}
+		}
+		return nil
+	}
 	for _, fn := range parserFns(p) {
 		for _, b := range fn.Blocks {
 			for _, ins := range b.Instrs {
+				// a table written as a map literal: one insertion per entry
+				if mu, ok := ins.(*ssa.MapUpdate); ok {
+					mt, ok := mu.Map.Type().Underlying().(*types.Map)
+					if !ok || !isNamed(mt.Key(), "token", "Type") {
+						continue
+					}
+					nt, ok := types.Unalias(mt.Elem()).(*types.Named)
+					if !ok {
+						continue
+					}
+					sig, isSig := nt.Underlying().(*types.Signature)
+					if !isSig {
+						continue
+					}
+					rg := registration{fnType: nt.Obj().Name(), pos: mu.Pos()}
+					k, isConst := mu.Key.(*ssa.Const)
+					if !isConst || k.Value == nil {
+						continue // the registering helper itself: table[parameter] = function
+					}
+					rg.tok = constant.StringVal(k.Value)
+					rg.method = boundMethod(mu.Value)
+					if sig.Params().Len() == 1 {
+						rg.table = "registerInfix"
+					} else {
+						rg.table = "nullary:" + nt.Obj().Name()
+					}
+					out = append(out, rg)
+					continue
+				}
 				c, ok := ins.(*ssa.Call)
 				if !ok {
 					continue
@@ -1325,13 +1374,20 @@ func ruleTernGuard(p *Program, r *Reporter) {
 	ret, isRet := terminator(tb).(*ssa.Return)
 	r.Check(isRet && isNilConst(returnOperand(ret, 0)), "ternary nesting flag tested first", p.Pos(iff.Pos()), "flag set → nil (error recorded: R-NILERR)", "when the in-ternary flag is set the parselet must return nil (with an error)")
 	// set before the arms are parsed
-	var setTrue *ssa.Store
+	var setTrue ssa.Instruction
+	storesTrue := func(ins ssa.Instruction) bool {
+		if st, ok := ins.(*ssa.Store); ok && fieldKey(st.Addr) == flag {
+			if c, ok := st.Val.(*ssa.Const); ok && c.Value != nil && c.Value.Kind() == constant.Bool && constant.BoolVal(c.Value) {
+				return true
+			}
+		}
+		return false
+	}
 	for _, b := range fn.Blocks {
 		for _, ins := range b.Instrs {
-			if st, ok := ins.(*ssa.Store); ok && fieldKey(st.Addr) == flag {
-				if c, ok := st.Val.(*ssa.Const); ok && c.Value != nil && constant.BoolVal(c.Value) {
-					setTrue = st
-				}
+			// the store itself, or a call of a method that makes it on all its paths
+			if performs(ins, storesTrue, 1) {
+				setTrue = ins
 			}
 		}
 	}
